@@ -29,6 +29,13 @@ func tryReplay(verifDir, repo, prop, fn string, o ObReport, payload map[string]i
 		return false
 	}
 	tp := templateFor(verifDir, fn)
+	// an obligation may have its own template: <function>@<label>.tmpl
+	if k := strings.LastIndex(o.ID, "@"); k >= 0 {
+		sp := strings.TrimSuffix(tp, ".tmpl") + "@" + reFile.ReplaceAllString(o.ID[k+1:], "_") + ".tmpl"
+		if _, err := os.Stat(sp); err == nil {
+			tp = sp
+		}
+	}
 	b, err := os.ReadFile(tp)
 	if err != nil {
 		payload["replay"] = "no replay template for " + fn + ": model attached, not concretised"
